@@ -75,6 +75,18 @@ def run(ctx):
     ok, msg = vf.regen(SPEC["uses_gen"])
     if ok:
         vf.coq_make(["Model/ApiAccess.vo", "Model/ApiRoutes.vo"])
+        try:
+            errs = json.load(open(os.path.join(vf.COQ, "Gen", "Routes.json"))).get("errors") or []
+        except Exception as e:  # noqa: BLE001
+            errs = ["Gen/Routes.json unreadable: %s" % e]
+        if errs:
+            # newServerMux no longer has the shape the translator can evaluate: there is
+            # no table to enumerate requests over; name what could not be translated
+            vf.prove(ctx)
+            vf.violation(ctx, {"no_longer_checks": [{"kind": "translation", "detail": e} for e in errs],
+                               "note": "the route registrations of src/api/http.go newServerMux could not be evaluated; C27_routes_translated fails and no request was generated"},
+                         False, "translation break (route table of newServerMux): " + errs[0][:300], "-broken")
+            return
     vf.standard_run(ctx, SPEC)
     ctx.coverage["explanation"] = (
         "Theorems hold for all configurations, requests and routes of a well-formed table; the regenerated table of this tree is proved well formed. "
